@@ -124,12 +124,14 @@ func rebuildRunningEventFilter(
 	windowStart := floorAligned
 	for {
 		_, err := core.GetAggregatedBloomFilter(reader, rangeStartAligned, lastStoredFilterRangeEnd)
-		if err == nil {
+		// A persisted window that reaches beyond the head was written before a reorg took
+		// the head back into it: it is not complete and may describe replaced blocks.
+		if err == nil && lastStoredFilterRangeEnd <= latest {
 			continueFrom = lastStoredFilterRangeEnd + 1
 			windowStart = continueFrom
 			break
 		}
-		if !errors.Is(err, db.ErrKeyNotFound) {
+		if err != nil && !errors.Is(err, db.ErrKeyNotFound) {
 			return nil, fmt.Errorf(
 				"scanning for aggregated bloom filter at range [%d, %d]: %w",
 				rangeStartAligned, lastStoredFilterRangeEnd, err,
